@@ -737,14 +737,34 @@ func (g *Gen) ctxOp() *Op {
 	o := &Op{Who: pick(rng, consumerAtoms)}
 	var rc types.RequestContext
 	have := false
-	if len(ids) > 0 && g.chance(0.93) {
+	// contexts owned by a module are driven by that module through the keeper API (modupd, modpause,
+	// modstart, modkill): about a quarter of the context ops while such contexts exist. The keeper API is
+	// never aimed at a context WITHOUT a module (no module would; wf_op excludes it).
+	var modIDs []string
+	for _, id := range ids {
+		if s.Ctxs[id].ModuleName != "" {
+			modIDs = append(modIDs, id)
+		}
+	}
+	viaModule := len(modIDs) > 0 && g.chance(0.3)
+	switch {
+	case viaModule && g.chance(0.96):
+		id := modIDs[rng.Intn(len(modIDs))]
+		o.Tx, o.Idx = splitCtx([]byte(id))
+		rc, have = s.Ctxs[id], true
+		if g.chance(0.9) {
+			o.Who = a.atomOfAddr(rc.Consumer)
+		}
+	case viaModule:
+		o.Tx, o.Idx = g.freshTx(), 0 // no such context
+	case len(ids) > 0 && g.chance(0.93):
 		id := ids[rng.Intn(len(ids))]
 		o.Tx, o.Idx = splitCtx([]byte(id))
 		rc, have = s.Ctxs[id], true
 		if g.chance(0.88) {
 			o.Who = a.atomOfAddr(rc.Consumer)
 		}
-	} else {
+	default:
 		o.Tx, o.Idx = g.freshTx(), 0
 	}
 	// weights (pause, start, kill, update) by the state of the target
@@ -827,6 +847,23 @@ func (g *Gen) ctxOp() *Op {
 			if g.chance(0.4) {
 				totals := []int64{1, 2, 3, 5, -1}
 				o.Total = totals[rng.Intn(len(totals))]
+			}
+		}
+	}
+	if viaModule {
+		o.Kind = map[string]string{"pause": "modpause", "start": "modstart", "kill": "modkill", "updctx": "modupd"}[o.Kind]
+		if o.Kind == "modupd" {
+			// thresholds 0 (keep) .. 4: below, at and above the number of providers (given or kept)
+			o.Thr = int64(rng.Intn(5))
+			n := len(o.Provs)
+			if n == 0 && have {
+				n = len(rc.Providers)
+			}
+			if n > 0 && g.chance(0.5) {
+				o.Thr = int64(1 + rng.Intn(n)) // acceptable, and mostly a change
+			}
+			if g.chance(0.3) {
+				o.Thr = 0
 			}
 		}
 	}
